@@ -6,7 +6,7 @@ from vlib.purity import purity_step, CELL_RULES
 
 CHECK = Check(
     "C04",
-    props_modules=["OW.Props.C04", "OW.Props.C04Nd", "OW.Props.C04NdTables", "OW.Props.C04Init"],
+    props_modules=["OW.Props.C04", "OW.Props.C04Nd", "OW.Props.C04NdTables", "OW.Props.C04Init", "OW.Props.C04InitRows"],
     families=[Family("W", rtol=1e-9, atol_scale=1e-12, tol_by_model=TOL_BY_MODEL, args=["models=" + ",".join(ALL_MODELS), "n=30"] + EXTRA_ARGS)],
     # regenerated structural facts of every generated Run closure (the C05 extractor): a kernel that shares anything between cells
     # (package-level scratch buffers, caches, shared location vectors, an unjoined goroutine) breaks "N cells = N single-cell runs"
@@ -45,8 +45,10 @@ CHECK = Check(
              "for tables the per-cell decoding is covered by cellParams_tables / param_decoding_tables, by the correspondence and by the in-worker single-cell oracle",
              "x.states = none (the wrapper calls InitialiseStates(nCells) itself): NOW PROVED (OW/Props/C04Init.lean) run_nil_states (Run without a state "
              "array = Run on the array InitialiseStates(nCells) builds, same result / error class), run_nil_states_error, single_cell_eq_init (every "
-             "cell equals the single-cell Run started from ITS row of that array). Not claimed: that this row equals what InitialiseStates(1) builds "
-             "for the cell alone (rows are sized from cell 0: KF-C05-GR4J/Lag-InitialiseStates-row-width)"],
+             "cell equals the single-cell Run started from ITS row of that array). That this row equals what InitialiseStates(1) builds for the cell "
+             "alone is PROVED for models whose initial rows all have one width (OW/Props/C04InitRows.lean: fill_content, initStates_uniform, "
+             "initStates_uniform_row — the array is exactly the list of km.init(column i)); it is not true when the width depends on a parameter "
+             "(rows are sized from cell 0: KF-C05-GR4J/Lag-InitialiseStates-row-width)"],
 )
 
 META = dict(
